@@ -229,24 +229,72 @@ func (c *Ctx) keysComparedBefore(fn *ssa.Function, b *ssa.BasicBlock, ownTable f
 			nx, ok := ex.Tuple.(*ssa.Next)
 			return ok && nx.Block() == l.header
 		}
+		// through the call whose outcome implies the comparison (the check of one entry, moved into a helper): the
+		// helper's parameters stand for the arguments of the call
+		resolve := func(cond core.Cond, v ssa.Value) ssa.Value {
+			v = core.Unwrap(v)
+			if cond.Via == nil {
+				return v
+			}
+			helper := core.StaticBody(&cond.Via.Call)
+			if p, isParam := v.(*ssa.Parameter); isParam && helper != nil {
+				for i, q := range helper.Params {
+					if q == p && i < len(cond.Via.Call.Args) {
+						return core.Unwrap(cond.Via.Call.Args[i])
+					}
+				}
+			}
+			return v
+		}
 		for lb := range l.blocks {
-			iff, ok := lb.Instrs[len(lb.Instrs)-1].(*ssa.If)
-			if !ok {
+			if _, ok := lb.Instrs[len(lb.Instrs)-1].(*ssa.If); !ok || lb.Succs[0] == lb.Succs[1] {
 				continue
 			}
-			bin, ok := iff.Cond.(*ssa.BinOp)
-			if !ok || (bin.Op != token.NEQ && bin.Op != token.EQL) {
-				continue
-			}
-			if !((isKey(bin.X) && isEntryID(bin.Y)) || (isKey(bin.Y) && isEntryID(bin.X))) {
-				continue
-			}
-			mismatch := lb.Succs[0]
-			if bin.Op == token.EQL {
-				mismatch = lb.Succs[1]
-			}
-			if mismatch != b && !blockReaches(mismatch, b, nil) && !l.blocks[mismatch] || (len(mismatch.Succs) == 0) {
-				return "behind a loop over the same table that compares every entry's ID() with its key and leaves the function on a mismatch (" + c.M.Pos(l.pos) + ")"
+			for si, succ := range lb.Succs {
+				equal := false
+				for _, cond := range core.EdgeConds(lb, succ) {
+					bin, ok := cond.V.(*ssa.BinOp)
+					if !ok || (bin.Op != token.NEQ && bin.Op != token.EQL) || (bin.Op == token.EQL) != cond.True {
+						continue
+					}
+					entryID := func(v ssa.Value) bool {
+						if isEntryID(v) {
+							return true
+						}
+						// ID() of a helper's parameter that stands for the loop's value
+						call, ok := core.Unwrap(v).(*ssa.Call)
+						if !ok || cond.Via == nil {
+							return false
+						}
+						name := ""
+						var recv ssa.Value
+						if call.Call.IsInvoke() {
+							name, recv = call.Call.Method.Name(), call.Call.Value
+						} else if sc := call.Call.StaticCallee(); sc != nil && len(call.Call.Args) == 1 {
+							name, recv = sc.Name(), call.Call.Args[0]
+						}
+						if name != "ID" || recv == nil {
+							return false
+						}
+						ex, ok := resolve(cond, recv).(*ssa.Extract)
+						if !ok || ex.Index != 2 {
+							return false
+						}
+						nx, ok := ex.Tuple.(*ssa.Next)
+						return ok && nx.Block() == l.header
+					}
+					key := func(v ssa.Value) bool { return isKey(resolve(cond, v)) }
+					if (key(bin.X) && entryID(bin.Y)) || (key(bin.Y) && entryID(bin.X)) {
+						equal = true
+					}
+				}
+				if !equal {
+					continue
+				}
+				mismatch := lb.Succs[1-si]
+				if mismatch != b && !blockReaches(mismatch, b, nil) && !l.blocks[mismatch] || (len(mismatch.Succs) == 0) {
+					return "behind a loop over the same table that compares every entry's ID() with its key and leaves the function on a mismatch (" + c.M.Pos(l.pos) + ")"
+				}
 			}
 		}
 	}
@@ -559,7 +607,7 @@ func (c *Ctx) ruleForwardAll(rule string) {
 					cnt++
 					k := key(rule, c.M.Key(fn), sprintf("exit #%d from the forwarding loop is a closed channel, another select case or a failed write", cnt))
 					why := ""
-					for _, cond := range core.CondsAt(r.Block()) {
+					for _, cond := range r.Conds() {
 						switch x := cond.V.(type) {
 						case *ssa.BinOp:
 							// index of the select compared with a case number
@@ -649,6 +697,11 @@ func (c *Ctx) ruleDeferUnlock(rule string, fns map[*ssa.Function]bool) {
 									foreign = x
 								}
 							}
+							// the same inside a function of the module that the section calls (the body of the section, moved into
+							// a worker), also when the function kept in the field is handed to it as an argument
+							if body := core.StaticBody(&x.Call); body != nil && foreign == nil && c.runsFieldFunc(body, x.Call.Args, 0) {
+								foreign = x
+							}
 						}
 					}
 					for _, s := range wb.Succs {
@@ -677,6 +730,52 @@ func (c *Ctx) ruleDeferUnlock(rule string, fns map[*ssa.Function]bool) {
 	if n == 0 {
 		c.R.Unresolved(rule, "a critical section that calls a function kept in a field (the step's initializer)")
 	}
+}
+
+// runsFieldFunc: fn (called with args) calls a function kept in a field - loaded by fn itself, or by its caller and
+// handed over as an argument - directly or through the functions of the module it calls.
+func (c *Ctx) runsFieldFunc(fn *ssa.Function, args []ssa.Value, depth int) bool {
+	if depth > 3 {
+		return false
+	}
+	for _, b := range fn.Blocks {
+		for _, in := range b.Instrs {
+			x, ok := in.(*ssa.Call)
+			if !ok || x.Call.IsInvoke() {
+				continue
+			}
+			if x.Call.StaticCallee() == nil {
+				if _, isBuiltin := x.Call.Value.(*ssa.Builtin); isBuiltin {
+					continue
+				}
+				if fromFuncField(x.Call.Value) {
+					return true
+				}
+				for i, p := range fn.Params {
+					if x.Call.Value == ssa.Value(p) && i < len(args) && args[i] != nil && fromFuncField(args[i]) {
+						return true
+					}
+				}
+				continue
+			}
+			if body := core.StaticBody(&x.Call); body != nil && body != fn {
+				// arguments that are parameters of fn keep what the caller passed
+				inner := make([]ssa.Value, len(x.Call.Args))
+				for j, a := range x.Call.Args {
+					inner[j] = a
+					for i, p := range fn.Params {
+						if a == ssa.Value(p) && i < len(args) {
+							inner[j] = args[i]
+						}
+					}
+				}
+				if c.runsFieldFunc(body, inner, depth+1) {
+					return true
+				}
+			}
+		}
+	}
+	return false
 }
 
 // fromFuncField: v is loaded from a struct field of function type.
